@@ -88,7 +88,8 @@ class Untypable(Exception):
 
 
 REDUCERS = {'sum', 'mean', 'max', 'min', 'std', 'var', 'median', 'prod',
-            'any', 'all', 'nansum', 'nanmean'}
+            'any', 'all', 'nansum', 'nanmean', 'ptp', 'amax', 'amin',
+            'nanmax', 'nanmin', 'count_nonzero'}
 ARG_REDUCERS = {'argmax', 'argmin'}
 ELEMENTWISE = {'sqrt', 'log2', 'log', 'exp', 'abs', 'square', 'round',
                'ceil', 'floor', 'logical_not', 'isnan', 'copy', 'float',
